@@ -16,6 +16,39 @@ RULE = ('a fixed set of generated documents (3 quick / 8 thorough, seed-independ
 ASSUMPTIONS = ['the selected set itself is C11\'s subject; here it is taken from TokenCategory.valid']
 
 
+def echo_doc():
+    """the same cell texts under different categories in one document: 'G', 'r', '4c', 'e' as notes / rests of **root and **kern spines and as
+    chord label, syllable and fingering of **harm, **text and **fing spines (in every row the same text in all columns, and shifted)"""
+    import gen
+    hs = ['**root', '**harm', '**kern', '**text', '**fing']
+    def note(p, dur=None):
+        return {'k': 'note', 'pre': [], 'dur': ({'num': dur, 'rat': None, 'dots': 0, 'grace': ''} if dur else None), 'mid': [], 'pitch': p, 'post1': [], 'acc': '', 'disp': '', 'post2': []}
+    def rest(dur=None):
+        return {'k': 'rest', 'pre': [], 'dur': ({'num': dur, 'rat': None, 'dots': 0, 'grace': ''} if dur else None), 'rr': 'r', 'post': []}
+    kinds = {'**harm': 'harmony', '**text': 'lyrics', '**fing': 'fingering'}
+    def row(texts):
+        cells = []
+        for h, t in zip(hs, texts):
+            if h in ('**root', '**kern'):
+                if t == 'r':
+                    cells.append(rest())
+                elif t[0].isdigit():
+                    cells.append(rest(t[0]) if t[1:] == 'r' else note(t[1:], t[0]))
+                else:
+                    cells.append(note(t))
+            else:
+                cells.append({'k': 'other', 'kind': kinds[h], 'text': t})
+        return {'kind': 'cells', 'rk': 'data', 'cells': cells, 'live': list(range(len(hs)))}
+    live = list(range(len(hs)))
+    rows = [{'kind': 'cells', 'rk': 'header', 'cells': [{'k': 'header', 'text': h} for h in hs], 'live': live},
+            {'kind': 'cells', 'rk': 'interp', 'cells': [{'k': 'other', 'kind': 'clef', 'text': '*clefG2'} if h in ('**root', '**kern') else {'k': 'other', 'kind': 'empty', 'text': '*'} for h in hs], 'live': live},
+            {'kind': 'cells', 'rk': 'bar', 'cells': [{'k': 'bar', 'double': False, 'number': '1', 'hidden': False, 'type': '', 'fermata': False, 'tail': ''} for _ in hs], 'live': live}]
+    for texts in (['G', 'G', 'G', 'G', 'G'], ['r', 'r', 'r', 'r', 'r'], ['e', 'G', '4c', 'e', '4c'], ['4c', 'e', 'e', '4c', 'r'], ['C', 'r', '2r', 'C', '2r'], ['2r', 'C', 'C', 'r', 'e']):
+        rows.append(row(texts))
+    rows.append({'kind': 'cells', 'rk': 'term', 'cells': [gen.op_cell('*-') for _ in hs], 'live': live})
+    return {'headers': hs, 'rows': rows, 'profile': 'echo'}
+
+
 def explore(ctx, depth):
     import docrun, gen
     from kernpy.core.tokens import TokenCategory as TC
@@ -24,6 +57,7 @@ def explore(ctx, depth):
     save = ctx.rng
     ctx.rng = random.Random(20260926)
     fixed = docrun.make_cases(ctx, 3 if depth == 'quick' else 8, max_measures=3)
+    fixed += docrun.make_cases(ctx, 0, docs=[echo_doc()])
     ctx.rng = save
     combos, seen = [], set()
 
